@@ -115,8 +115,37 @@ func runC20(c *Ctx) {
 			t := c.termOf(dec, cs.Common().Args[0])
 			c.Ob("C20-R2", "DecryptKey builds the key from the whole decrypted plaintext", c.Position(cs.Pos()), c20AllFromDecrypt(c, dec, cs.Common().Args[0]), t)
 		}
+		// supporting code of the round trip: key files are written whole (an overwrite that does not truncate leaves the
+		// tail of the old file behind), and the version-1 padding is removed by exactly the announced pad length
+		wk := c.Fn(ks + ":writeKeyFile")
+		nw := 0
+		for _, cs := range callSites(wk, `^(os|ioutil)\.(WriteFile|OpenFile|Create)$`) {
+			nw++
+			okW := strings.HasSuffix(calleeName(cs.Common()), ".WriteFile") || strings.HasSuffix(calleeName(cs.Common()), ".Create")
+			if strings.HasSuffix(calleeName(cs.Common()), ".OpenFile") {
+				if fl, isC := constInt(cs.Common().Args[1]); isC {
+					okW = fl&0x200 != 0 || fl&0x80 != 0 // O_TRUNC or O_EXCL
+				}
+			}
+			c.Ob("C20-R2", "writeKeyFile replaces the whole file (WriteFile, Create, or OpenFile with O_TRUNC/O_EXCL)", c.Position(cs.Pos()), okW, calleeName(cs.Common()))
+		}
+		c.Ob("C20-R2", "writeKeyFile writes the key file", c.FnPos(wk), nw == 1, fmt.Sprintf("%d file-opening calls", nw))
+		up := c.Fn(ks + ":pkcs7Unpad")
+		fup := c.Facts(up)
+		nu := 0
+		for _, rs := range fup.AllReturns() {
+			t := fup.tr.term(rs.State, rs.Ret.Results[0], 0)
+			if t == "nil" {
+				continue
+			}
+			nu++
+			pad := "[]byte#0[(len([]byte#0) - 1)]"
+			c.Ob("C20-R2", "pkcs7Unpad removes exactly the announced number of pad bytes", c.Position(rs.Ret.Pos()),
+				t == "[]byte#0[:(len([]byte#0) - "+pad+")]" && rs.State.lits[pad+" <= 16"] && rs.State.lits[pad+" != 0"], "returns "+t)
+		}
+		c.Ob("C20-R2", "pkcs7Unpad has one accepting form", c.FnPos(up), nu == 1, fmt.Sprintf("%d", nu))
 	})
-	c.Min("C20-R2", 18)
+	c.Min("C20-R2", 22)
 
 	c.Rule("C20-R3", "everything that determines the plaintext is authenticated by the MAC or re-validated", func() {
 		for _, v := range []struct{ fn, cipher string }{{"decryptKeyV3", `^keystore\.aesCTRXOR$`}, {"decryptKeyV1", `^keystore\.aesCBCDecrypt$`}} {
